@@ -3,17 +3,18 @@
 // relies on these counts being exact), the tour / cost bookkeeping of one vehicle (C09) and the depot
 // balances read off the table.
 //
-// ASSUMPTIONS introduced by this slice (all in env/depot_usage_shim.vs unless noted):
-//   A-im   im::HashSet  {new, len (+ finiteness), insert, remove, clone}            -- external_body shims
-//   A-im   im::HashMap  {entry, keys} and Entry::or_insert                          -- external_body shims
+// ASSUMPTIONS introduced by this slice (all in env/depot_usage_shim.vs):
+//   A-im   im::HashSet  {new, len, insert, remove, clone}                           -- external_body shims
+//   A-im   im::HashMap  {entry, keys} + Entry::or_insert                            -- external_body shims
 //          (`entry` / `or_insert` as a method pair; the `&mut V` returned by `or_insert` is a reference INTO
 //          the map: the final map is the old one with the key bound to the final value of the reference)
+//   A-im   axiom_key_seq: `keys()` visits every key exactly once                    -- axiom
 //   A-std6 i32::unsigned_abs                                                        -- assume_specification
 //   A-derive  Vehicle::clone is structural                                          -- external_body
-//   A-stub Tour::start_depot, Tour::end_depot, Tour::costs                          -- trusted stubs (below; same
-//          contract text as slices/transition.vs / slices/reassign.vs)
-//   plus the shared ones of env/im_shim.vs (HashMap new/get/contains_key/insert/remove), env/seqiter.vs
-//   (SeqIter map/sum), env/vsum_impls.vs (u32 sum), env/model_fns.vs (Network::node, included trusted).
+//   plus the shared ones: env/im_shim.vs (im::HashMap new/get/contains_key/insert/remove), env/seqiter.vs
+//   (SeqIter map/sum), env/vsum_impls.vs (u32 sum = integer total, no wrap), env/model_fns.vs
+//   (Network::node, Node::is_start_depot / is_end_depot: included trusted, verified in slice `network`),
+//   env/broadcast_model.vs (key model of the index types).  No function of /repo is stubbed by this slice.
 #![feature(allocator_api)]
 use vstd::prelude::*;
 use std::ops::Add;
@@ -60,20 +61,37 @@ use self::im_set::HashSet;
 //@drop-derive Clone
 //@end
 
-// ---- Tour: trusted stubs (contract text as in slices/transition.vs) ------------------------------------
-//@item solution/src/tour.rs Tour::start_depot : trusted
+// ---- Tour: depot accessors and costs (verified here, verbatim bodies; contract text of
+// start_depot / end_depot / costs as in slices/transition.vs, where they are stubs) ---------------------
+//@item solution/src/tour.rs Tour::first_node
+//@retname r
+//@sig
+    requires self.nodes@.len() >= 1,
+    ensures r == self.nodes@[0],
+//@end
+//@item solution/src/tour.rs Tour::last_node
+//@retname r
+//@sig
+    requires self.nodes@.len() >= 1,
+    ensures r == self.nodes@[self.nodes@.len() - 1],
+//@end
+//@item solution/src/tour.rs Tour::start_depot
 //@retname r
 //@sig
     requires self.wf(),
     ensures !self.is_dummy ==> r == Ok::<NodeIdx, String>(sp_start_depot(self)),
+//@first
+        proof { assert(self.network.has(self.nodes@[0])); }
 //@end
-//@item solution/src/tour.rs Tour::end_depot : trusted
+//@item solution/src/tour.rs Tour::end_depot
 //@retname r
 //@sig
     requires self.wf(),
     ensures !self.is_dummy ==> r == Ok::<NodeIdx, String>(sp_end_depot(self)),
+//@first
+        proof { assert(self.network.has(self.nodes@[self.nodes@.len() - 1])); }
 //@end
-//@item solution/src/tour.rs Tour::costs : trusted
+//@item solution/src/tour.rs Tour::costs
 //@retname r
 //@sig
     ensures r == self.costs,
